@@ -30,6 +30,7 @@ import (
 	"testing"
 	"time"
 
+	ber "github.com/go-asn1-ber/asn1-ber"
 	"github.com/glauth/ldap"
 	"github.com/whawty/auth/zz_verif/vlib"
 )
@@ -83,6 +84,7 @@ type agent struct {
 	lineCh                    chan string
 	done                      chan struct{}
 	exitErr                   error
+	startTLS                  bool // the plain LDAP listener offers StartTLS
 }
 
 type agentOpts struct {
@@ -131,12 +133,17 @@ func startAgentWith(binary, root, cfgFile string, o agentOpts) (*agent, error) {
 			lc.WriteString("http:\n  listen: [\"127.0.0.1:0\"]\n")
 		case "ldap":
 			lc.WriteString("ldap:\n  listen: [\"127.0.0.1:0\"]\n")
-		case "https", "ldaps":
+		case "https", "ldaps", "ldaptls":
 			cert, key, err := tlsFiles(root)
 			if err != nil {
 				return nil, err
 			}
-			fmt.Fprintf(&lc, "%s:\n  listen: [\"127.0.0.1:0\"]\n  tls:\n    certificate: %q\n    certificate-key: %q\n", l, cert, key)
+			key2 := l
+			if l == "ldaptls" { // the plain LDAP listener with a certificate: StartTLS is offered, plain binds still work
+				key2 = "ldap"
+				a.startTLS = true
+			}
+			fmt.Fprintf(&lc, "%s:\n  listen: [\"127.0.0.1:0\"]\n  tls:\n    certificate: %q\n    certificate-key: %q\n", key2, cert, key)
 		}
 	}
 	lf := filepath.Join(root, "listener.yaml")
@@ -239,24 +246,32 @@ func startAgentSA(root, cfgFile string, o agentOpts) (*agent, error) {
 			f, _ := ln.(*net.TCPListener).File()
 			ln.Close()
 			files, names = append(files, f), append(names, l)
-		case "https", "ldaps":
+		case "https", "ldaps", "ldaptls":
 			cert, key, err := tlsFiles(root)
 			if err != nil {
 				return nil, err
 			}
-			fmt.Fprintf(&lc, "%s:\n  listen: [\"127.0.0.1:0\"]\n  tls:\n    certificate: %q\n    certificate-key: %q\n", l, cert, key)
+			key2 := l
+			if l == "ldaptls" {
+				key2 = "ldap"
+				a.startTLS = true
+			}
+			fmt.Fprintf(&lc, "%s:\n  listen: [\"127.0.0.1:0\"]\n  tls:\n    certificate: %q\n    certificate-key: %q\n", key2, cert, key)
 			ln, err := net.Listen("tcp", "127.0.0.1:0")
 			if err != nil {
 				return nil, err
 			}
-			if l == "https" {
+			switch l {
+			case "https":
 				a.httpsAddr = ln.Addr().String()
-			} else {
+			case "ldaps":
 				a.ldapsAddr = ln.Addr().String()
+			default:
+				a.ldapAddr = ln.Addr().String()
 			}
 			f, _ := ln.(*net.TCPListener).File()
 			ln.Close()
-			files, names = append(files, f), append(names, l)
+			files, names = append(files, f), append(names, key2)
 		}
 	}
 	lf := filepath.Join(root, "listener.yaml")
@@ -465,6 +480,68 @@ func (a *agent) ldapsBind(name, pw string) (bool, error) {
 		return false, nil
 	}
 	return false, err
+}
+
+// ldapStartTLSBind connects to the plain LDAP listener, upgrades the connection with StartTLS and binds inside the TLS session.
+// The messages are written with the BER package directly: the client library's own StartTLS reads the response on a connection
+// its reader goroutine is already reading from, and asserts the wrong integer type on the result code.
+func (a *agent) ldapStartTLSBind(name, pw string) (bool, error) {
+	raw, err := net.DialTimeout("tcp", a.ldapAddr, 5*time.Second)
+	if err != nil {
+		return false, err
+	}
+	defer raw.Close()
+	raw.SetDeadline(time.Now().Add(20 * time.Second))
+	resultCode := func(p *ber.Packet, app ber.Tag) (int64, error) {
+		if p == nil || len(p.Children) < 2 || p.Children[1].Tag != app || len(p.Children[1].Children) < 1 {
+			return -1, fmt.Errorf("unexpected LDAP response")
+		}
+		switch v := p.Children[1].Children[0].Value.(type) {
+		case int64:
+			return v, nil
+		case uint64:
+			return int64(v), nil
+		}
+		return -1, fmt.Errorf("LDAP response without result code")
+	}
+	req := ber.Encode(ber.ClassUniversal, ber.TypeConstructed, ber.TagSequence, nil, "LDAP Request")
+	req.AppendChild(ber.NewInteger(ber.ClassUniversal, ber.TypePrimitive, ber.TagInteger, int64(1), "MessageID"))
+	ext := ber.Encode(ber.ClassApplication, ber.TypeConstructed, 23, nil, "Start TLS")
+	ext.AppendChild(ber.NewString(ber.ClassContext, ber.TypePrimitive, 0, "1.3.6.1.4.1.1466.20037", "TLS Extended Command"))
+	req.AppendChild(ext)
+	if _, err := raw.Write(req.Bytes()); err != nil {
+		return false, err
+	}
+	resp, err := ber.ReadPacket(raw)
+	if err != nil {
+		return false, fmt.Errorf("StartTLS response: %v", err)
+	}
+	if rc, err := resultCode(resp, 24); err != nil || rc != 0 {
+		return false, fmt.Errorf("StartTLS refused: rc=%d %v", rc, err)
+	}
+	tc := tls.Client(raw, &tls.Config{InsecureSkipVerify: true})
+	if err := tc.Handshake(); err != nil {
+		return false, fmt.Errorf("StartTLS handshake: %v", err)
+	}
+	bind := ber.Encode(ber.ClassUniversal, ber.TypeConstructed, ber.TagSequence, nil, "LDAP Request")
+	bind.AppendChild(ber.NewInteger(ber.ClassUniversal, ber.TypePrimitive, ber.TagInteger, int64(2), "MessageID"))
+	br := ber.Encode(ber.ClassApplication, ber.TypeConstructed, 0, nil, "Bind Request")
+	br.AppendChild(ber.NewInteger(ber.ClassUniversal, ber.TypePrimitive, ber.TagInteger, int64(3), "Version"))
+	br.AppendChild(ber.NewString(ber.ClassUniversal, ber.TypePrimitive, ber.TagOctetString, name, "User Name"))
+	br.AppendChild(ber.NewString(ber.ClassContext, ber.TypePrimitive, 0, pw, "Password"))
+	bind.AppendChild(br)
+	if _, err := tc.Write(bind.Bytes()); err != nil {
+		return false, err
+	}
+	resp, err = ber.ReadPacket(tc)
+	if err != nil {
+		return false, fmt.Errorf("bind response inside TLS: %v", err)
+	}
+	rc, err := resultCode(resp, 1)
+	if err != nil {
+		return false, err
+	}
+	return rc == 0, nil
 }
 
 func (a *agent) basicAuth(user, pw string) (int, error) {
